@@ -43,6 +43,8 @@ type Registry struct {
 	uninterpOrd []Sort
 	pkgNames    map[string]string // path -> short name
 	typeByKey   map[string]types.Type
+	anyAlias    map[Sort]bool
+	anyAliasOrd []Sort
 	constArrs   map[string]string
 	constArrOrder []string
 }
@@ -187,6 +189,17 @@ func (r *Registry) SortOf(t types.Type) Sort {
 		if st, ok := tt.Underlying().(*types.Struct); ok {
 			return r.structSort(tt, st)
 		}
+		if it, ok := tt.Underlying().(*types.Interface); ok && it.NumMethods() > 0 {
+			s := Sort(quote("AnyI_" + r.TypeKey(tt)))
+			if !r.anyAlias[s] {
+				if r.anyAlias == nil {
+					r.anyAlias = map[Sort]bool{}
+				}
+				r.anyAlias[s] = true
+				r.anyAliasOrd = append(r.anyAliasOrd, s)
+			}
+			return s
+		}
 		return r.SortOf(tt.Underlying())
 	case *types.Basic:
 		info := tt.Info()
@@ -298,11 +311,31 @@ func (r *Registry) Box(t types.Type, v Term) Term {
 
 func (r *Registry) IsBoxed(t types.Type, a Term) Term {
 	c := r.AnyConFor(t)
+	// a literal boxing decides the test
+	if strings.HasPrefix(a.S, "(") {
+		if i := strings.IndexByte(a.S, ' '); i > 0 {
+			head := a.S[1:i]
+			if head == c.Ctor {
+				return TTrue
+			}
+			for _, k := range r.anyOrder {
+				if r.anyCons[k].Ctor == head {
+					return TFalse
+				}
+			}
+		}
+	}
+	if a.S == "nil_any" {
+		return TFalse
+	}
 	return Term{"((_ is " + c.Ctor + ") " + a.S + ")", SBool}
 }
 
 func (r *Registry) Unbox(t types.Type, a Term) Term {
 	c := r.AnyConFor(t)
+	if strings.HasPrefix(a.S, "("+c.Ctor+" ") && strings.HasSuffix(a.S, ")") {
+		return Term{a.S[len(c.Ctor)+2 : len(a.S)-1], c.Payload}
+	}
 	return app(c.Payload, c.Accessor, a)
 }
 
@@ -325,6 +358,9 @@ func (r *Registry) Zero(so Sort) Term {
 		return Term{"float_zero", SFloat}
 	case SFunc:
 		return Term{"func_nil", SFunc}
+	}
+	if isAnySort(so) {
+		return Term{"nil_any", so}
 	}
 	if si, ok := r.structs[so]; ok {
 		if len(si.Fields) == 0 {
@@ -375,12 +411,19 @@ func (r *Registry) Preamble() []string {
 		var sb strings.Builder
 		sb.WriteString("((" + si.Ctor)
 		for _, f := range si.Fields {
-			fmt.Fprintf(&sb, " (%s %s)", f.Accessor, f.Sort)
+			fs := f.Sort
+			if isAnySort(fs) {
+				fs = SAny // aliases are defined after the datatypes; they denote Any
+			}
+			fmt.Fprintf(&sb, " (%s %s)", f.Accessor, fs)
 		}
 		sb.WriteString("))")
 		bodies = append(bodies, sb.String())
 	}
 	out = append(out, "(declare-datatypes ("+strings.Join(names, " ")+") ("+strings.Join(bodies, " ")+"))")
+	for _, a := range r.anyAliasOrd {
+		out = append(out, fmt.Sprintf("(define-sort %s () Any)", a))
+	}
 	for _, n := range r.constArrOrder {
 		out = append(out, r.constArrs[n])
 	}
